@@ -139,5 +139,33 @@ func TestPathLemmas(t *testing.T) {
 		}
 		n++
 	}
+	// scheme/ocidir axioms no-colon-without-index / no-colon-behind-the-last-one (C06 TagList):
+	// all strings of length <= 5 over {a : /}
+	colon := []string{""}
+	front := []string{""}
+	for l := 0; l < 5; l++ {
+		var next []string
+		for _, s := range front {
+			for _, c := range []string{"a", ":", "/"} {
+				next = append(next, s+c)
+			}
+		}
+		colon = append(colon, next...)
+		front = next
+	}
+	endsInTag := func(s, t string) bool { return s == t || strings.HasSuffix(s, ":"+t) }
+	for _, s := range colon {
+		i := strings.LastIndex(s, ":")
+		if i < 0 {
+			if strings.Contains(s, ":") || !endsInTag(s, s) {
+				t.Fatalf("no-colon-without-index fails for %q", s)
+			}
+		} else {
+			if strings.Contains(s[i+1:], ":") || !endsInTag(s, s[i+1:]) {
+				t.Fatalf("no-colon-behind-the-last-one fails for %q", s)
+			}
+		}
+		n++
+	}
 	fmt.Printf("BOUNDED instances=%d\n", n)
 }
